@@ -315,10 +315,18 @@ func TestVerifC04(t *testing.T) {
 					fail = r.Range(1, missing)
 					m.failAt = fail
 				}
-				s.opDesc = fmt.Sprintf("Map(page=%#x, frame=%#x, flags=%#x) failAt=%d missing=%d", va, frame, flags, fail, missing)
+				zero := ""
+				if missing > 0 && fail == 0 && !m.zeroHanded && r.Chance(1, 12) {
+					// the first new table level of this request lands in physical frame 0
+					m.zeroNext = true
+					zero = " (next frame from the allocator: 0)"
+					run.Count("op_map_with_a_new_table_in_physical_frame_0", 1)
+				}
+				s.opDesc = fmt.Sprintf("Map(page=%#x, frame=%#x, flags=%#x) failAt=%d missing=%d%s", va, frame, flags, fail, missing, zero)
 				fp = fp.U64(uint64(va)).U64(frame).U64(flags).Int(fail)
 				err := Map(mm.PageFromAddress(va), mm.Frame(frame), PageTableEntryFlag(flags))
 				m.failAt = 0
+				m.zeroNext = false
 				if fail > 0 {
 					usedFail = true
 					run.Count("op_map_alloc_failure_injected", 1)
@@ -464,6 +472,9 @@ func TestVerifC04(t *testing.T) {
 				frame := uint64(r.Intn(1<<24)) + 1
 				if r.Bool() {
 					frame = uint64(r.Intn(1<<30)) + (1 << 20)
+				}
+				if r.Chance(1, 8) {
+					frame = 0 // low memory: the range starts with page 0
 				}
 				size := uint64(r.PickInt([]int{0, 1, 4096, 4097, 8192, 16384}))
 				flags := c04GenFlags(r)
